@@ -10,10 +10,10 @@ cp -n /repo/go.sum harness/go.sum 2>/dev/null || true
 (cd harness && go1.26.8 build -tags verif -overlay ../overlay/overlay.json -o ../.build/ ./cmd/... ) || echo "setup: some harness binaries failed to build (each check rebuilds its own)"
 python3 tools/gen_lakefile.py
 # regenerate every fact file so that the Lean library builds
+mkdir -p lean/Gms/Generated
 for b in .build/c[0-9][0-9]; do
   id=$(basename "$b" | tr a-z A-Z)
   if [ -f "props/$id.json" ]; then "$b" extract --repo /repo --out "lean/Gms/Generated/$id.lean" >/dev/null 2>&1 || true; fi
 done
-mkdir -p lean/Gms/Generated
 (cd lean && lake build Gms Drivers $(ls Drivers/*.lean | sed 's#Drivers/\(.*\)\.lean#drv_\L\1#') ) || echo "setup: lake build reported failures (each check rebuilds what it needs)"
 echo "setup done"
